@@ -914,6 +914,8 @@ MANIFEST = {
             'edge outside the page box inside the bleed area, cross-mark circles inside their bleed strip; render_sound: every page of the document '
             'model (the function compared with rendered documents) is makePageBox of a cascaded style + makeMarginBoxes on '
             'its geometry, counter(pages) = number of pages, page sequence = docPages (function-level theorems transported); '
+            'render_margin_boxes_have_content: every margin box of every page of a rendered document has, in the cascade of '
+            'the @page rules selecting that page for that box, a content other than normal/none; '
             'render_page_counter: counter(page) = i+1 on every page of a rendered document whose @page rules touch no counter '
             '(through the cascade: cascade_not_declared).',
     'note': 'Trusted: Lean kernel, the AST translator of the margin-box tables, the harness (mock boxes, stubbed content '
